@@ -17,7 +17,7 @@ def cases(rng, tier, X):
     n = 250 if tier == 'quick' else 20000
     out = []
     for k in range(n):
-        mtu = rng.choice([576, 1500, 9216])
+        mtu = rng.choice([576, 1500, 9216]) if rng.random() < 0.92 else rng.choice([9217, 9710, 16110])      # now and then beyond the usual jumbo ceiling (ixgbe 9710, e1000 16110): C06 does not bound the MTU
         cap = (mtu - 34) // 14
         own = F.OWN
         mapper = rng.choice(F.STATIONS)
